@@ -162,6 +162,18 @@ func NewTGSReq(cname types.PrincipalName, kdcRealm string, c *config.Config, tgt
 	return a, err
 }
 
+// NewTGSReqForClientRealm is NewTGSReq for a client whose realm may differ from the realm that issued the ticket
+// presented (a cross-realm TGT obtained through a referral, or a ticket of another realm being renewed): the
+// authenticator names the client's own realm, as RFC 4120 section 5.5.1 requires, not the realm of the ticket.
+func NewTGSReqForClientRealm(cname types.PrincipalName, crealm, kdcRealm string, c *config.Config, tgt Ticket, sessionKey types.EncryptionKey, sname types.PrincipalName, renewal bool) (TGSReq, error) {
+	a, err := tgsReq(cname, sname, kdcRealm, renewal, c)
+	if err != nil {
+		return a, err
+	}
+	err = a.setPADataForClientRealm(crealm, tgt, sessionKey)
+	return a, err
+}
+
 // NewUser2UserTGSReq returns a TGS-REQ suitable for user-to-user authentication (https://tools.ietf.org/html/rfc4120#section-3.7)
 func NewUser2UserTGSReq(cname types.PrincipalName, kdcRealm string, c *config.Config, clientTGT Ticket, sessionKey types.EncryptionKey, sname types.PrincipalName, renewal bool, verifyingTGT Ticket) (TGSReq, error) {
 	a, err := tgsReq(cname, sname, kdcRealm, renewal, c)
@@ -226,6 +238,10 @@ func tgsReq(cname, sname types.PrincipalName, kdcRealm string, renewal bool, c *
 }
 
 func (k *TGSReq) setPAData(tgt Ticket, sessionKey types.EncryptionKey) error {
+	return k.setPADataForClientRealm(tgt.Realm, tgt, sessionKey)
+}
+
+func (k *TGSReq) setPADataForClientRealm(crealm string, tgt Ticket, sessionKey types.EncryptionKey) error {
 	// Marshal the request and calculate checksum
 	b, err := k.ReqBody.Marshal()
 	if err != nil {
@@ -242,7 +258,7 @@ func (k *TGSReq) setPAData(tgt Ticket, sessionKey types.EncryptionKey) error {
 
 	// Form PAData for TGS_REQ
 	// Create authenticator
-	auth, err := types.NewAuthenticator(tgt.Realm, k.ReqBody.CName)
+	auth, err := types.NewAuthenticator(crealm, k.ReqBody.CName)
 	if err != nil {
 		return krberror.Errorf(err, krberror.KRBMsgError, "error generating new authenticator")
 	}
